@@ -14,6 +14,7 @@ CONSTANTS
   BitSplits <- BitSplitsNone
   PS = {}
   VCs = {}
+  Stride = 1
   Dev = {}
   Mode = "mc"
 INIT TInit
